@@ -4,3 +4,8 @@
 mod c11 {
     include!(concat!(env!("IPA_VERIF_DIR"), "/c11.rs"));
 }
+
+#[cfg(all(not(feature = "shuttle"), feature = "descriptive-gate"))]
+mod c19a {
+    include!(concat!(env!("IPA_VERIF_DIR"), "/c19a.rs"));
+}
